@@ -261,13 +261,11 @@ theorem lookups_agree_after_any_history (ops : List TocOp) (hinst : ∀ t, TocOp
 
 /-- the dictionary a download builds is well-formed (so it may be cached and installed later) -/
 theorem downloaded_table_wf (es : List Elem) : (tocOf es).WF := by
+  have h : ∀ t0 : Toc, (es.map TocOp.add).foldl TocOp.apply t0 = es.foldl Toc.add t0 := by
+    induction es with
+    | nil => intro t0; rfl
+    | cons e r ih => intro t0; simp only [List.map_cons, List.foldl_cons]; exact ih _
   have := tocAfter_wf (es.map TocOp.add) (by intro t ht; simp at ht) [] ⟨List.nodup_nil, by intro x hx; cases hx⟩
-  have h : (es.map TocOp.add).foldl TocOp.apply [] = tocOf es := by
-    unfold tocOf
-    generalize ([] : Toc) = t0
-    induction es generalizing t0 with
-    | nil => rfl
-    | cons e r ih => simp only [List.map_cons, List.foldl_cons]; exact ih _
   rw [h] at this; exact this
 
 /-! ## Cache hit: the table is installed instead of downloaded -/
